@@ -757,7 +757,7 @@ package formula
 //@ func newDecimalBig
 //@   tags [C04,C09]
 //@   panics never
-//@   ensures[C04] result != nil && fresh(result) && result.prec == 34 && result.val == dzero()
+//@   ensures[C04] result != nil && fresh(result) && result.prec == 34 && result.val == dzero() && result.Context.RoundingMode == 0
 
 // wfv: numbers are real objects (a typed nil *decimal.Big is not a supported data value).
 //@ spec wfv(a any) bool := is(a, *decimal.Big) ==> refOf(a) > 0
@@ -1328,3 +1328,206 @@ package formula
 //@   ensures[C17] forall i int :: 0 <= i && i < len(m) ==> result0[i] == m[i][key]
 //@   loop 1: invariant rangeindex >= -1 && rangeindex < len(m) && len(result) == rangeindex + 1 && (forall i int :: 0 <= i && i <= rangeindex ==> result[i] == m[i][key])
 //@           decreases len(m) - rangeindex
+
+// ---------------------------------------------------------------------------
+// Builtins: numbers (C18) - each is the intended library operation on its argument
+// ---------------------------------------------------------------------------
+
+//@ func funAbs
+//@   tags [C18,C03]
+//@   requires v != nil
+//@   panics never
+//@   ensures result1 == nil && result0 != nil && fresh(result0)
+//@   ensures[C18] result0.val == dabs(v.val)
+
+//@ func funCeil
+//@   tags [C18,C03]
+//@   requires v != nil
+//@   panics never
+//@   ensures result1 == nil && result0 != nil && fresh(result0)
+//@   ensures[C18] result0.val == dceil(v.val, 16)
+
+//@ func funFloor
+//@   tags [C18,C03]
+//@   requires v != nil
+//@   panics never
+//@   ensures result1 == nil && result0 != nil && fresh(result0)
+//@   ensures[C18] result0.val == dfloor(v.val, 16)
+
+//@ func funExp
+//@   tags [C18,C03]
+//@   requires v != nil
+//@   panics never
+//@   ensures result1 == nil && result0 != nil && fresh(result0)
+//@   ensures[C18] result0.val == dexp(v.val, 16)
+
+//@ func funLn
+//@   tags [C18,C03]
+//@   requires v != nil
+//@   panics never
+//@   ensures result1 == nil && result0 != nil && fresh(result0)
+//@   ensures[C18] result0.val == dln(v.val, 16)
+
+//@ func funLog
+//@   tags [C18,C03]
+//@   requires v != nil
+//@   panics never
+//@   ensures result1 == nil && result0 != nil && fresh(result0)
+//@   ensures[C18] result0.val == dlog10(v.val, 16)
+
+//@ func funSqrt
+//@   tags [C18,C03]
+//@   requires v != nil
+//@   panics never
+//@   ensures result1 == nil && result0 != nil && fresh(result0)
+//@   ensures[C18] result0.val == dsqrt(v.val, 16)
+
+// round: nearest integer (ties away from zero); roundBank: nearest integer, ties to even.
+//@ func funRound
+//@   tags [C18,C03]
+//@   requires v != nil
+//@   panics never
+//@   ensures result1 == nil && result0 != nil && fresh(result0)
+//@   ensures[C18] result0.val == droundIntM(v.val, 1)
+
+//@ func funRoundBank
+//@   tags [C18,C03]
+//@   requires v != nil
+//@   panics never
+//@   ensures result1 == nil && result0 != nil && fresh(result0)
+//@   ensures[C18] result0.val == droundIntM(v.val, 0)
+
+// max/min return one of the arguments, and it bounds the others.
+//@ func funMax
+//@   tags [C18,C03]
+//@   requires forall i int :: 0 <= i && i < len(nums) ==> nums[i] != nil
+//@   panics never
+//@   ensures[C03] len(nums) == 0 ==> result1 != nil
+//@   ensures[C18] len(nums) > 0 ==> result1 == nil && (exists k int :: 0 <= k && k < len(nums) && result0 == nums[k])
+//@   ensures[C18] len(nums) > 0 && (forall i int :: 0 <= i && i < len(nums) ==> !dnan(nums[i].val)) ==> (forall i int :: 0 <= i && i < len(nums) ==> dcmp(nums[i].val, result0.val) <= 0)
+//@   loop 1: invariant rangeindex >= -1 && rangeindex < len(nums) && len(nums) > 0 && max != nil
+//@           invariant (exists k int :: 0 <= k && k < len(nums) && max == nums[k])
+//@           invariant (forall i int :: 0 <= i && i < len(nums) ==> !dnan(nums[i].val)) ==> (forall i int :: 0 <= i && i <= rangeindex ==> dcmp(nums[i].val, max.val) <= 0)
+//@           decreases len(nums) - rangeindex
+
+//@ func funMin
+//@   tags [C18,C03]
+//@   panics never
+//@   ensures[C03] len(nums) == 0 ==> result1 != nil
+
+//@ func funFinite
+//@   tags [C18,C03]
+//@   panics never
+//@   ensures result1 == nil && result0 != nil
+//@   ensures[C18] num(v) && dfinite(nval(v)) ==> result0 == nref(v)
+//@   ensures[C18] !(num(v) && dfinite(nval(v))) ==> result0.val == dvInt(0)
+
+//@ func funToString
+//@   tags [C18,C03]
+//@   requires wfv(v)
+//@   panics never
+//@   ensures result1 == nil
+//@   ensures[C18] num(v) ==> result0 == dstr(nval(v))
+
+// toInt truncates toward zero (the library's Int64), exactly.
+//@ func funToInt
+//@   tags [C18,C03]
+//@   requires wfv(v)
+//@   panics never
+//@   ensures result1 == nil && result0 != nil
+//@   ensures[C18] num(v) ==> fresh(result0) && result0.val == dvInt(d2i(nval(v)))
+
+//@ func funToFloat
+//@   tags [C18,C03]
+//@   requires wfv(v)
+//@   panics never
+//@   ensures result1 == nil && result0 != nil
+//@   ensures[C18] num(v) ==> result0 == nref(v)
+//@   ensures[C18] isstr(v) ==> (dvStrOK(sval(v)) ? result0.val == dvStr(sval(v)) : dnan(result0.val))
+
+// ---------------------------------------------------------------------------
+// Builtins: dates (C19) - argument order, units and numbering of the one library call each makes
+// ---------------------------------------------------------------------------
+
+//@ func funDate
+//@   tags [C19,C03]
+//@   panics never
+//@   ensures result1 == nil
+//@   ensures[C19] result0 == tDate(y, m, d, 0, 0, 0, 0, time.Local)
+
+//@ func funAddDate
+//@   tags [C19,C03]
+//@   panics never
+//@   ensures result1 == nil
+//@   ensures[C19] result0 == tAddDate(date, y, m, d)
+
+//@ func funYear
+//@   tags [C19,C03]
+//@   panics never
+//@   ensures result1 == nil
+//@   ensures[C19] result0 == tYear(date)
+
+//@ func funMonth
+//@   tags [C19,C03]
+//@   panics never
+//@   ensures result1 == nil
+//@   ensures[C19] result0 == tMonth(date)
+
+//@ func funDay
+//@   tags [C19,C03]
+//@   panics never
+//@   ensures result1 == nil
+//@   ensures[C19] result0 == tDay(date)
+
+//@ func funHour
+//@   tags [C19,C03]
+//@   panics never
+//@   ensures result1 == nil
+//@   ensures[C19] result0 == tHour(date)
+
+//@ func funMinute
+//@   tags [C19,C03]
+//@   panics never
+//@   ensures result1 == nil
+//@   ensures[C19] result0 == tMinute(date)
+
+//@ func funSecond
+//@   tags [C19,C03]
+//@   panics never
+//@   ensures result1 == nil
+//@   ensures[C19] result0 == tSecond(date)
+
+//@ func funWeekDay
+//@   tags [C19,C03]
+//@   panics never
+//@   ensures result1 == nil
+//@   ensures[C19] result0 == tWeekday(date)
+
+//@ func funMillSecond
+//@   tags [C19,C03]
+//@   panics never
+//@   ensures result1 == nil
+//@   ensures[C19] result0 == tUnixNano(date) / 1000000
+
+//@ func funTimeFormat
+//@   tags [C19,C03]
+//@   panics never
+//@   ensures result1 == nil
+//@   ensures[C19] result0 == tFormat(date, layout)
+
+//@ func funUseTimezone
+//@   tags [C19,C03]
+//@   panics never
+//@   ensures[C19] (result1 == nil) == tLocOK(name)
+//@   ensures[C19] result1 == nil ==> tUnixNano(result0) == tUnixNano(date)
+
+//@ func funNow
+//@   tags [C19,C03]
+//@   panics never
+//@   ensures result1 == nil
+
+//@ func funToDay
+//@   tags [C19,C03]
+//@   panics never
+//@   ensures result1 == nil
+//@   ensures[C19] exists now time.Time :: result0 == tDate(tYear(now), tMonth(now), tDay(now), 0, 0, 0, 0, time.Local)
